@@ -72,6 +72,7 @@ def run(ctx):
     r143(ctx, dists)
     r144(ctx)
     r146(ctx)
+    r147_uniform_bounds(ctx)
 
 
 def r141(ctx, dists):
@@ -378,3 +379,63 @@ def r146(ctx):
     if not ok:
         ctx.finding('R14.6', 'QuantityDist.__init__', prog.cls('QuantityDist'), qd, 'QuantityDist.__init__ must validate the wrapped distribution and the unit against quantity._units and store both',
                     where='QuantityDist.__init__')
+
+
+def r147_uniform_bounds(ctx):
+    """R14.7: DistUniform.draw() in [lo, hi): affine bounds over the fields under the constructor's ordering guard"""
+    from ..affine import Affine, Lin, straight_line_env
+    prog = ctx.prog
+    c = 'DistUniform'
+    ctx.rule('R14.7', 'DistUniform.draw() = lo + (hi - lo) * u lies in [lo, hi) for u in [0, 1): affine bounds over the fields, ordering taken from the constructor guard')
+    ci = prog.cls(c)
+    init = prog.method(c, '__init__', inherited=False)
+    draw = prog.method(c, 'draw', inherited=False)
+    # field <- parameter map and the ordering the constructor enforces
+    fld = {}
+    for st in body_of(init):
+        if isinstance(st, (ast.Assign, ast.AnnAssign)):
+            t = st.targets[0] if isinstance(st, ast.Assign) else st.target
+            v = st.value
+            if isinstance(v, ast.Call) and unparse(v.func) == 'float' and len(v.args) == 1:
+                v = v.args[0]
+            if is_self_attr(t) and isinstance(v, ast.Name):
+                fld[v.id] = 'self.' + t.attr
+    strict = None
+    names = None
+    for st in body_of(init):
+        if isinstance(st, ast.If) and any(isinstance(x, ast.Raise) for x in st.body) and isinstance(st.test, ast.Compare) and len(st.test.ops) == 1:
+            l, r, op = unparse(st.test.left), unparse(st.test.comparators[0]), st.test.ops[0]
+            if l in fld and r in fld:
+                # refusing  a <= b  leaves a > b ;  a < b leaves a >= b ; mirrored for >= / >
+                if isinstance(op, ast.LtE):
+                    names, strict = (l, r), True
+                elif isinstance(op, ast.Lt):
+                    names, strict = (l, r), False
+                elif isinstance(op, ast.GtE):
+                    names, strict = (r, l), True
+                elif isinstance(op, ast.Gt):
+                    names, strict = (r, l), False
+    if names is None:
+        ctx.ob('R14.7', f'{c}:ordering-guard', False)
+        ctx.finding('R14.7', f'{c}.__init__:ordering-guard', ci, init, 'the constructor does not refuse hi <= lo: the draw is not confined to a non-empty interval', where=f'{c}.__init__')
+        return
+    big, small = fld[names[0]], fld[names[1]]         # big > small (or >=) after the guard
+    aff = Affine({big: False, small: False}, assumptions=[(Lin(0, {big: 1, small: -1}), strict)],
+                 units={'self._stream.next_float()': True, 'self.stream.next_float()': True})
+    env = straight_line_env(aff, draw)
+    rs = [r for r in walk_shallow(draw) if isinstance(r, ast.Return) and r.value is not None]
+    for r in rs:
+        ctx.examined()
+        v = aff.eval(r.value, env)
+        problems = []
+        if v.lb is None or not aff.le(Lin(0, {small: 1}), v.lb[0]):
+            problems.append(f'no proof that the draw is >= {small}')
+        if v.ub is None or not aff.le(v.ub[0], Lin(0, {big: 1})):
+            problems.append(f'no proof that the draw is <= {big}')
+        elif v.ub[0] == Lin(0, {big: 1}) and not v.ub[1]:
+            problems.append(f'the upper bound {big} is not excluded')
+        ok = not problems
+        ctx.ob('R14.7', f'{c}.draw', ok, sample=f'{c}.draw returns `{short(r.value, 60)}` in {v} given {big} {">" if strict else ">="} {small}')
+        if not ok:
+            ctx.finding('R14.7', f'{c}.draw:bounds', ci, r, f'draw() = `{short(r.value, 70)}` has bounds {v}: ' + '; '.join(problems), where=f'{c}.draw')
+    ctx.floor('R14.7', 'returns of DistUniform.draw', len(rs), 1)
